@@ -35,6 +35,15 @@ func init() {
 		"vYield":    hYield,
 		"vThorough": func(m *machine, fr *frame, args []value) value { return m.w.thorough },
 		"vWriter":   hWriter,
+		"vBound": func(m *machine, fr *frame, args []value) value {
+			switch concreteStr(args[0], "vBound name") {
+			case "runes":
+				m.runesMax = int(asInt64(args[1]))
+			case "split":
+				m.splitMax = int(asInt64(args[1]))
+			}
+			return nil
+		},
 		"vAnd": func(m *machine, fr *frame, args []value) value {
 			return fromTerm(mkAnd(toTerm(args[0]), toTerm(args[1])))
 		},
@@ -187,7 +196,13 @@ func hAssert(m *machine, fr *frame, args []value) value {
 			m.outcomes = append(m.outcomes, assertOutcome{ID: id, Status: "proved"})
 			return nil
 		}
-		mod, _, res := m.model(nc, nil)
+		// decide on the relevant slice of the path condition first; a model of
+		// the whole path is only needed for a counterexample
+		res := m.checkWith(nc)
+		var mod map[string]modelVal
+		if res == Sat {
+			mod, _, res = m.model(nc, nil)
+		}
 		switch res {
 		case Unsat:
 			m.outcomes = append(m.outcomes, assertOutcome{ID: id, Status: "proved"})
